@@ -88,7 +88,11 @@ Inductive op :=
 | RowAdd (r d : nat)            (* rows[r].Add(dets[d]) - by value - on a row not yet in the table *)
 | AddRow (r : nat)              (* t.AddRow(rows[r]), at most once per row *)
 | AddRowItems (n : nat)         (* t.AddRowItems(n items): a new row in the table, grows it to n columns *)
-| TakeColumn (n : nat).         (* handles = append(handles, t.Column(n)) *)
+| TakeColumn (n : nat)          (* handles = append(handles, t.Column(n)) *)
+| AddHeaders (n : nat)          (* t.AddHeaders(n items): first, repeated, shorter or longer; the table grows to n columns and never shrinks *)
+| Touch (o : owner)             (* something done to / around an owner that exists and that is NOT a set: Update() after
+                                   mutating the item, String(), a CSV / HTML / JSON render, Headers(), a %#v dump *)
+| NewCellOf (o : owner).        (* c := tabular.NewCell(the cell value): a new detached cell around a cell; its own properties are empty *)
 
 (* Observation after every step: the step's own result, then for every watched
    owner that currently exists (chain length, the value under each key of the
